@@ -1271,6 +1271,11 @@ impl<'a> G<'a> {
                 for j in 0..nv {
                     let arity = self.t.n(3);
                     let mut tys: Vec<T> = (0..arity).map(|_| self.data_ty(1)).collect();
+                    // multi-field variants with a void field are a representation corner (the void field has no slot)
+                    if self.fl.void_data && arity >= 2 && self.t.n(4) == 0 {
+                        let k = self.t.n(arity);
+                        tys[k] = T::Void;
+                    }
                     // a variant never mentions its own enum or a later one (no recursive types)
                     for t in tys.iter_mut() {
                         if contains_enum(t, i) {
